@@ -1,5 +1,13 @@
-/* wrapper TU (vm-err checks C04/C05/C06): the real src/error_context.c of the current tree + read access to its statics */
+/* wrapper TU (vm-err checks C04/C05/C06): the real src/error_context.c of the current tree + read access to its statics.
+ * error_handler() is additionally routed through a recorder (every error the driver raises passes through it). */
+#include "src/std.h"
+#include "src/error_context.h"
+#include "src/simulate.h"
+/* the first statement of error_handler(err) is reset_destruct_object_limits(): record the message there */
+static void vw_record (const char *err);
+#define reset_destruct_object_limits() (vw_record (err), (reset_destruct_object_limits) ())
 #include "src/error_context.c"   /* resolved through -I <repo> */
+#undef reset_destruct_object_limits
 
 int vw_ec_depth (void) { int d = 0; for (error_context_t *e = current_error_context; e; e = e->save_context) d++; return d; }
 int vw_ec_top_is_catch (void) {
@@ -8,3 +16,21 @@ int vw_ec_top_is_catch (void) {
 control_stack_t *vw_ec_top_csp (void) { return current_error_context ? current_error_context->save_csp : 0; }
 int vw_in_error (void) { return in_error; }
 int vw_in_mudlib_error_handler (void) { return in_mudlib_error_handler; }
+
+/* recorder */
+int vw_nerrors;                 /* errors raised since last reset */
+int vw_limit_mask;              /* 1 eval cost, 2 too deep recursion, 4 value stack overflow, 8 "Can't catch ..." re-raise */
+char vw_last_error_text[200];
+char vw_first_limit_text[120];
+void vw_reset_errors (void) { vw_nerrors = 0; vw_limit_mask = 0; vw_last_error_text[0] = 0; vw_first_limit_text[0] = 0; }
+static void vw_record (const char *err) {
+  int bit = 0;
+  vw_nerrors++;
+  snprintf (vw_last_error_text, sizeof vw_last_error_text, "%s", err);
+  if (!strncmp (err, "*Too long evaluation", 20)) bit = 1;
+  else if (!strncmp (err, "***Too deep recursion", 21)) bit = 2;
+  else if (!strncmp (err, "***Stack overflow", 17)) bit = 4;
+  else if (!strncmp (err, "*Can't catch", 12)) bit = 8;
+  if (bit && !vw_limit_mask) snprintf (vw_first_limit_text, sizeof vw_first_limit_text, "%s", err);
+  vw_limit_mask |= bit;
+}
